@@ -614,6 +614,15 @@ func (s *ErrSigningFailure) Error() string {
 	return fmt.Sprintf("signing error: %v", s.Err)
 }
 
+// Unwrap returns the underlying error, so that errors.Is and errors.As can see
+// the cause of the signing failure.
+func (s *ErrSigningFailure) Unwrap() error {
+	return s.Err
+}
+
+// Unwarp returns the underlying error.
+//
+// Deprecated: misspelled, kept for compatibility. Use Unwrap.
 func (s *ErrSigningFailure) Unwarp() error {
 	return s.Err
 }
